@@ -213,6 +213,12 @@ func main() {
 			rep.Count("scenarios_switching_modules_during_prep", 1)
 			rep.Count("wanted_set_checks_after_prep_switch", int64(v.PrepSwitchedChecks))
 		}
+		if sc.Wide != nil {
+			rep.Count("scenarios_wide_level_"+sc.Wide.Mode, 1)
+			if r.out.ParkMissed {
+				rep.Count("wide_barrier_missed", 1)
+			}
+		}
 		if sc.Conc != nil {
 			rep.Count("scenarios_concurrent_"+sc.Conc.Kind, 1)
 			rep.Count("concurrent_calls_overlapping", int64(v.OverlapCalls))
